@@ -407,6 +407,10 @@ func (r *TypeReg) declHeap() string {
 	b.WriteString("))))\n")
 	for _, n := range names {
 		c := r.comps[n]
+		if strings.HasPrefix(n, "G.") {
+			fmt.Fprintf(&b, "(define-fun %s ((h Heap)) %s (h.%s h))\n", n, c.Sort, n)
+			continue
+		}
 		if strings.HasPrefix(c.Sort, "(Array Int (Array Int ") {
 			el := strings.TrimSuffix(strings.TrimPrefix(c.Sort, "(Array Int (Array Int "), "))")
 			fmt.Fprintf(&b, "(define-fun %s.at ((h Heap) (a Int) (i Int)) %s (select (select (h.%s h) a) i))\n", n, el, n)
